@@ -95,7 +95,7 @@ def run_L2(repo, res, prop, lcs, rule='L2'):
     """No branching on cache presence that changes values."""
     seen = set()
     for lc in lcs:
-        for n, f in lc.members.items():
+        for f in list(lc.members.values()) + list(lc.setters.values()):
             for node in ast.walk(f.node):
                 if not (isinstance(node, ast.Compare) and len(node.ops) == 1
                         and isinstance(node.ops[0], (ast.In, ast.NotIn))
